@@ -36,7 +36,7 @@ COMMANDABLE = (D.SOD, D.RTSO, D.SO, D.OE, D.QSA)
 
 def plan(tier, seed):
     shards = [{"kind": "decode", "part": i, "parts": 4} for i in range(4)]
-    transports = ["sdo", "pdo", "sdo", "pdo", "pdo-ticked"] if tier == "quick" else ["sdo", "pdo"] * 6 + ["pdo-ticked"] * 3
+    transports = ["sdo", "pdo", "sdo-disabled-tpdo", "pdo", "pdo-ticked"] if tier == "quick" else ["sdo", "pdo", "sdo-disabled-tpdo"] * 4 + ["pdo-ticked"] * 3
     shards += [{"kind": "transitions", "transport": t, "delays": [0, 1, 3] if tier == "quick" else [0, 1, 2, 3, 5, 8],
                 "extras": 3 if tier == "quick" else 12, "cs": seed * 10 + i} for i, t in enumerate(transports)]
     shards += [{"kind": "modes", "masks": 64 if tier == "quick" else 1024, "transport": t, "cs": seed} for t in ("sdo", "pdo")]
@@ -101,6 +101,17 @@ class DriveRig:
         self.sdo_writes = []
         self.rpdo_frames = 0
         self.rpdo_modes = []
+        self.lag = 0.0
+        self.pending_cw = []
+        self.lagged_controlwords = []
+        if transport == "sdo-disabled-tpdo":
+            n = self.node
+            m = n.tpdo[1]
+            m.clear()
+            m.add_variable(0x6041)
+            m.add_variable(0x6061)
+            m.cob_id, m.enabled, m.trans_type = self.tpdo_cob, False, 255
+            n.setup_402_state_machine(read_pdos=False)
         if transport.startswith("pdo"):
             n = self.node
             for m, idxs, cob in ((n.tpdo[1], (0x6041, 0x6061), self.tpdo_cob), (n.rpdo[1], (0x6040, 0x6060), self.rpdo_cob)):
@@ -120,6 +131,10 @@ class DriveRig:
     # SDO side of the drive
     def _read(self, mux):
         if mux == (0x6041, 0):
+            if self.pending_cw and time.time() >= self.pending_cw[0][0]:
+                for _, cw in self.pending_cw:
+                    self.drive.write_controlword(cw)
+                self.pending_cw = []
             return struct.pack("<H", self.drive.read_status())
         if mux == (0x6061, 0):
             self.drive._auto()
@@ -131,7 +146,11 @@ class DriveRig:
             return None
         self.sdo_writes.append((mux, bytes(data)))
         if mux == (0x6040, 0):
-            self.drive.write_controlword(struct.unpack("<H", data)[0])
+            if self.lag:
+                self.pending_cw.append((time.time() + self.lag, struct.unpack("<H", data)[0]))
+                self.lagged_controlwords.append(struct.unpack("<H", data)[0])
+            else:
+                self.drive.write_controlword(struct.unpack("<H", data)[0])
         elif mux == (0x6060, 0):
             self.drive.write_mode(struct.unpack("<b", data)[0])
         return None
@@ -168,6 +187,8 @@ class DriveRig:
 def run_transitions(ctx, desc):
     rng = random.Random(repr(("c19t", desc["cs"])))
     transport = desc["transport"]
+    if transport == "sdo" and desc["cs"] % 10 == 0:
+        run_slow_drive(ctx)
     ticked = transport == "pdo-ticked"
     extras = [0, D.EXTRA_BITS] + [rng.getrandbits(16) & D.EXTRA_BITS for _ in range(desc["extras"])]
     for start in D.STATES:
@@ -231,6 +252,29 @@ def run_transitions(ctx, desc):
                 rig.close()
 
 
+def run_slow_drive(ctx):
+    """Every single transition takes 0.3 s (well inside the single-step allowance of 4 s); the whole path takes longer
+    than TIMEOUT_SWITCH_STATE_FINAL (0.5 s), which only limits a step that does *not* confirm."""
+    for start, target in ((D.SOD, D.OE), (D.FAULT, D.SO)):
+        drive = D.Drive402(state=start)
+        rig = DriveRig("sdo", drive)
+        rig.lag = 0.3
+        rig.node.TIMEOUT_SWITCH_STATE_SINGLE = 4.0
+        rig.node.TIMEOUT_SWITCH_STATE_FINAL = 0.5
+        case = {"workload": "slow-drive", "start": start, "target": target, "lag_s": 0.3}
+        ctx.case(("slow-drive", start, target), nontrivial=True)
+        ctx.count("transition_cases")
+        exc = None
+        try:
+            rig.node.state = target
+        except Exception as e:  # noqa: BLE001
+            exc = e
+        if exc is not None or drive.state != target:
+            ctx.violation("slow-conformant-drive-abandoned", f"a drive needing 0.3 s per transition (allowance 4 s per step) was not brought from {start!r} to "
+                          f"{target!r}: {exc!r}, drive in {drive.state!r}, controlwords {[hex(c) for c in rig.lagged_controlwords]}", case)
+        rig.close()
+
+
 def run_modes(ctx, desc):
     rng = random.Random(repr(("c19m", desc["cs"], desc["transport"])))
     masks = list(range(1024)) if desc["masks"] >= 1024 else sorted(set([0, 0x3FF, 0x10, 0x3EF] + [1 << k for k in range(10)] + [rng.getrandbits(10) for _ in range(desc["masks"])]))
@@ -260,6 +304,16 @@ def run_modes(ctx, desc):
                 elif not writes or writes[-1] != code or any(w != code for w in writes):
                     ctx.violation("mode-code-written", f"op_mode = {name!r} wrote {writes} to 0x6060, the CiA 402 code is {code}", case)
             else:
+                if transport == "pdo":
+                    # the refused code must not ride along with the next transmission of the RPDO that carries the controlword
+                    before = drive.mode
+                    try:
+                        rig.node.state = D.RTSO
+                    except Exception:  # noqa: BLE001
+                        pass
+                    if drive.mode != before or any(m == code and code != before for m in rig.rpdo_modes):
+                        ctx.violation("unsupported-mode-reached-the-drive-later", f"op_mode = {name!r} was refused, yet the drive's mode became {drive.mode} "
+                                      f"(RPDO mode bytes {rig.rpdo_modes}) with the next controlword", case)
                 if not isinstance(exc, TypeError):
                     ctx.violation("unsupported-mode-accepted", f"op_mode = {name!r} is not advertised in {drive.supported:#x} but the call ended in {exc!r}", case)
                 if writes:
